@@ -102,6 +102,7 @@ def _pre_addition(*tensors):
         mask_needed = mask_needed or mask_needed_ab
 
     if mask_needed:
+        tensors = [ten.consume_transpose() for ten in tensors]  # _embed_tensor and hfs below address native legs
         legss = [tensor.get_legs(native=True) for tensor in tensors]
         ulegs = {n: legs_union(*(legs[n] for legs in legss)) for n in range(a.ndim_n)}
         hfs = tuple(ulegs[n].hf for n in range(a.ndim_n))
